@@ -140,6 +140,8 @@ pub(super) fn derive_schema(input: TokenStream) -> syn::Result<TokenStream> {
 
                     /* the key is any string (`my-field`, `r-1`) : not always an `Ident` */
                     let ident = f.ident.clone().unwrap(/* Named */);
+                    /* `r#type` is the field `type` */
+                    let ident = syn::ext::IdentExt::unraw(&ident);
                     let mut property_name = LitStr::new(&ident.to_string(), ident.span());
                     if let Some((span, case)) = container_attrs.serde.rename_all.value()? {
                         property_name = LitStr::new(&case.apply_to_field(&ident.to_string()), span);
